@@ -27,7 +27,13 @@ CFGS = [
     {"limit_request_line": 0, "limit_request_fields": 32768, "limit_request_field_size": 0},
     {"limit_request_line": 4094, "limit_request_fields": 10, "limit_request_field_size": 200},
     {"forwarded_allow_ips": "*"},
+    {"proxy_protocol": True},
+    {"proxy_protocol": True, "proxy_allow_ips": "10.1.1.1"},
 ]
+PROXY_PREFIX = ["", "", "PROXY TCP4 192.0.2.1 192.0.2.2 1111 80\r\n", "PROXY TCP6 2001:db8::1 2001:db8::2 1111 80\r\n",
+                "PROXY TCP4 192.0.2.1 192.0.2.2 1111\r\n", "PROXY UNKNOWN\r\n", "PROXY TCP4 300.0.2.1 192.0.2.2 1111 80\r\n",
+                "PROXY  TCP4 192.0.2.1 192.0.2.2 1111 80\r\n", "PROXY TCP4 192.0.2.1 192.0.2.2 70000 80\r\n"]
+VALID_PROXY = (2, 3)
 _cfg_cache = {}
 
 
@@ -40,7 +46,8 @@ def cfg_for(i):
 def strategy(tier):
     return st.fixed_dictionaries({
         "stream": gen_http.stream(obfuscate=True),
-        "cfg": st.sampled_from([0, 0, 0, 1, 2, 3, 4]),
+        "cfg": st.sampled_from([0, 0, 0, 1, 2, 3, 4, 5, 5, 6]),
+        "proxy": st.integers(0, len(PROXY_PREFIX) - 1),
         "cut": st.integers(0, 400),
         "consume": st.sampled_from([0, 0, 1, 3, 7]),
     })
@@ -50,7 +57,21 @@ def run_case(case):
     stream = case["stream"].encode("latin-1")
     cfg = cfg_for(case.get("cfg", 0))
     cuts = [case["cut"]] if case.get("cut") else []
-    reqs, terminal = penv.observe(stream, cuts, cfg)
+    pre = b""
+    if CFGS[case.get("cfg", 0)].get("proxy_protocol"):
+        # PROXY protocol v1 line in front of the first request (peer 127.0.0.1): config 5 allows the peer, config 6 does not
+        pre = PROXY_PREFIX[case.get("proxy", 0) % len(PROXY_PREFIX)].encode()
+    reqs, terminal = penv.observe(pre + stream, cuts, cfg)
+    if pre:
+        ok_line = (case.get("proxy", 0) % len(PROXY_PREFIX)) in VALID_PROXY and case.get("cfg") == 5
+        if not ok_line:
+            out = Outcome([], True, ["proxy-line:refused-expected"])
+            if reqs:
+                out.violations.append(Violation("proxy-line", "C01/request-yielded-after-bad-or-forbidden-proxy-line",
+                                                observed={"prefix": pre, "yielded": [_brief(r) for r in reqs[:2]]}, expected="rejected"))
+            return out
+        for r in reqs:      # offsets are relative to the stream after the PROXY line
+            r["end"] -= len(pre)
     out = judge(stream, reqs, terminal)
     if not out.violations and "consume" in case:
         # same connection, but the application reads little or nothing of each body: the requests
